@@ -325,6 +325,10 @@ func (e *Env) ident(name string) (TV, error) {
 			}
 		}
 	}
+	// ghost state
+	if g := e.vc.specs.ghost(name); g != nil {
+		return TV{e.vc.heap(e.st, g.heapName(), g.sort()), nil}, nil
+	}
 	// package-level object
 	if e.pkg != nil {
 		if obj := e.pkg.Scope().Lookup(name); obj != nil {
